@@ -310,7 +310,7 @@ Qed.
 
 (* ---------- the operations ---------- *)
 Section Ops.
-Variable hash : N -> N.
+Variable hash : N -> option N.
 Variable fx : codefacts.
 Variable c : cfg.
 Variable clock : nat -> Z.
@@ -324,17 +324,17 @@ Proof. intros. unfold erase_hashes. apply good_set_hashes. assumption. Qed.
 Lemma good_keep_mem : forall s x, wf s -> good s (keep_mem x s).
 Proof. intros s x W. apply (good_mem s s); [apply good_refl; assumption | reflexivity..]. Qed.
 
-Lemma good_recover : forall s lit, wf s -> good s (fst (recover hash s lit)).
+Lemma good_recover : forall s lit, wf s -> good s (fst (recover hash fx s lit)).
 Proof.
-  intros s lit W. unfold recover. destruct (hash_known (hash lit) s); cbn [fst]; [apply good_refl; assumption|].
+  intros s lit W. unfold recover. destruct (lit_known hash fx lit s); cbn [fst]; [apply good_refl; assumption|].
   eapply good_step; [apply good_bump_msg; assumption|]. intro W1.
   eapply good_step; [apply good_set_hashes; assumption|]. intro W2.
   apply good_ins. assumption.
 Qed.
-Lemma good_recover_res : forall s lit, wf s -> good s (fst (recover_res hash s lit)).
+Lemma good_recover_res : forall s lit, wf s -> good s (fst (recover_res hash fx s lit)).
 Proof.
   intros s lit W. unfold recover_res. pose proof (good_recover s lit W) as H.
-  destruct (recover hash s lit) as [s' k]. cbn [fst] in *. assumption.
+  destruct (recover hash fx s lit) as [s' k]. cbn [fst] in *. assumption.
 Qed.
 Lemma good_limit_refuse : forall s lit, wf s -> good s (fst (limit_refuse hash fx s lit)).
 Proof.
@@ -517,7 +517,7 @@ Proof.
   intros s W. unfold op_conn_bump. destruct (bump_all clock (map mb_id (s_mboxes s)) s) as [s1|] eqn:B; cbn [fst];
     [eapply good_bump_all; eassumption | apply good_refl; assumption].
 Qed.
-Lemma good_restart : forall s, wf s -> good s (fst (op_restart hash clock s)).
+Lemma good_restart : forall s, wf s -> good s (fst (op_restart hash fx clock s)).
 Proof.
   intros s W. unfold op_restart. cbv zeta. cbn [fst].
   match goal with |- context[gen_next clock ?x] => destruct (gen_next clock x) as [g s1] eqn:G end.
